@@ -46,7 +46,8 @@ Definition hout_eqb (a b : hout) : bool :=
   | HONs x, HONs y => nsout_eqb x y
   | HOBatch o1 i1, HOBatch o2 i2 => outcome_eqb o1 o2 && list_eqb N.eqb i1 i2
   | HOUnit, HOUnit => true
-  | HODump a1 b1 c1 d1, HODump a2 b2 c2 d2 => ss_eqb a1 a2 && ss_eqb b1 b2 && sn_eqb c1 c2 && ns_eqb d1 d2
+  | HODump a1 b1 c1 d1 e1, HODump a2 b2 c2 d2 e2 =>
+    ss_eqb a1 a2 && ss_eqb b1 b2 && sn_eqb c1 c2 && ns_eqb d1 d2 && sn_eqb e1 e2
   | _, _ => false
   end.
 
@@ -72,7 +73,7 @@ Record tables := { t_p2e : list (str * str); t_e2p : list (str * str);
 Fixpoint last_dump (outs : list hout) (acc : option tables) : option tables :=
   match outs with
   | [] => acc
-  | HODump a b c d :: r => last_dump r (Some {| t_p2e := a; t_e2p := b; t_u2i := c; t_i2u := d |})
+  | HODump a b c d _ :: r => last_dump r (Some {| t_p2e := a; t_e2p := b; t_u2i := c; t_i2u := d |})
   | _ :: r => last_dump r acc
   end.
 
@@ -122,15 +123,25 @@ Definition spec_event (t : tables) (ev : hop * hout) : bool :=
     end
   | (HCtxNew, HOUnit) => true
   | (HRestart _, HOUnit) => true
-  | (HDump, HODump a b c d) =>
+  | (HCrashWrite _ _ _ ents _, HOBatch oc ids) =>
+    (* the write was never acknowledged: its ids may be lost, but none may denote another identifier *)
+    ok_outcome oc && Nat.eqb (length ids) (length ents) &&
+    forallb (fun ei => match nlookup (snd ei) (t_i2u t) with
+                       | Some u => N.eqb (snd ei) 0 || str_eqb u (fst (fst ei))
+                       | None => true
+                       end) (combine ents ids)
+  | (HDump, HODump a b c d e) =>
     forallb (fun pe => maps_to t (fst pe) (snd pe)) a && forallb (fun ui => id_is t (fst ui) (snd ui)) c
+    && forallb (fun ui => id_is t (fst ui) (snd ui)) e
   | _ => false
   end.
 
 (** the two namespace maps resp. the two id indexes are each other's inverse *)
 Definition dump_ok (o : hout) : bool :=
   match o with
-  | HODump a b c d =>
+  | HODump a b c d e =>
+    (* every internal id carried by a durable entity version or reference key has its URI<->id record *)
+    forallb (fun ui => on_eqb (slookup (fst ui) c) (snd ui)) e &&
     Nat.eqb (length a) (length b) && Nat.eqb (length c) (length d)
     && forallb (fun pe => ostr_eqb (slookup (snd pe) b) (fst pe)) a
     && forallb (fun ep => ostr_eqb (slookup (snd ep) a) (fst ep)) b
@@ -180,8 +191,8 @@ Definition spec_core (c : tcase) : bool :=
 
 Definition variants : list variant :=
   [ v_current;
-    {| v_alias := AliasCopy; v_ctx := CtxCopyPtr |};
-    {| v_alias := AliasLive; v_ctx := CtxShared |};
+    {| v_alias := AliasCopy; v_ctx := CtxCopyPtr; v_order := IdsFirst |};
+    {| v_alias := AliasLive; v_ctx := CtxShared; v_order := IdsFirst |};
     v_fixed ].
 
 (** [mismatches under current; alias repaired only; contextual store repaired only;
@@ -223,3 +234,12 @@ Definition x_nopath : str := s2l "https://nopath".
 Definition x_nopath_parts : str * str := (s2l "https://", s2l "nopath").
 Definition x_hashslash : str := s2l "http://h/p#q/r".
 Definition x_hashslash_parts : str * str := (s2l "http://h/p#", s2l "q/r").
+
+(** a transaction with new identifiers during which the process dies at hook point [pt], then a dump
+    of what the next process finds, then the same identifier is used again *)
+Definition wit_crash (pt : nat) : list hop :=
+  [HCrashWrite true None (s2l "a") [ent1 "ns3:alice" "ns3:knows" "ns3:bob"] pt; HDump;
+   HBatch false (s2l "b") [ent0 "ns3:alice"]; HDump].
+Definition stored_durable (w : world) : bool :=
+  forallb (fun ui => on_eqb (slookup (fst ui) (disk (wid w))) (snd ui)) (wstored w).
+Definition wit_crash_min : list hop := [HCrashWrite true None (s2l "a") [ent0 "ns3:alice"] 1].
